@@ -214,14 +214,20 @@ Ltac overflow_step :=
      unfold u128, u64, u32 in E; repeat (rewrite Z.mod_small in E by (timeout 300 lia))
   end.
 
-Theorem scalar_reduce_512_correct l0 l1 l2 l3 l4 l5 l6 l7 :
+(* r is the canonical residue of v modulo the group order (a definition, so that the arithmetic tactics do not look inside
+   hypotheses that merely mention it) *)
+Definition red_spec (v r : Z) : Prop := r = v mod N256.
+
+(* weakest-precondition form: every continuation Q that holds of all canonical residues holds of the generated code run with Q *)
+Theorem scalar_reduce_512_wp l0 l1 l2 l3 l4 l5 l6 l7 :
   0 <= l0 < 2^64 -> 0 <= l1 < 2^64 -> 0 <= l2 < 2^64 -> 0 <= l3 < 2^64 ->
   0 <= l4 < 2^64 -> 0 <= l5 < 2^64 -> 0 <= l6 < 2^64 -> 0 <= l7 < 2^64 ->
-  scalar_reduce_512_k l0 l1 l2 l3 l4 l5 l6 l7 (fun r0 r1 r2 r3 =>
-    (0 <= r0 < 2^64 /\ 0 <= r1 < 2^64 /\ 0 <= r2 < 2^64 /\ 0 <= r3 < 2^64) /\
-    val4 r0 r1 r2 r3 = val8 l0 l1 l2 l3 l4 l5 l6 l7 mod N256).
+  forall Q : Z -> Z -> Z -> Z -> Prop,
+  (forall r0 r1 r2 r3, (0 <= r0 < 2^64 /\ 0 <= r1 < 2^64 /\ 0 <= r2 < 2^64 /\ 0 <= r3 < 2^64) /\
+    red_spec (val8 l0 l1 l2 l3 l4 l5 l6 l7) (val4 r0 r1 r2 r3) -> Q r0 r1 r2 r3) ->
+  scalar_reduce_512_k l0 l1 l2 l3 l4 l5 l6 l7 Q.
 Proof.
-  intros H0 H1 H2 H3 H4 H5 H6 H7.
+  intros H0 H1 H2 H3 H4 H5 H6 H7 Q HQ.
   unfold scalar_reduce_512_k.
   (* stage 1: 512 -> 385 bits *)
   repeat first [ muladd64_step | muladd_fast_step | sumadd_step | sumadd_fast_step | keep_step ].
@@ -229,17 +235,17 @@ Proof.
   assert (SM : m0 + m1 * 2^64 + m2 * 2^128 + m3 * 2^192 + m4 * 2^256 + m5 * 2^320 + m6 * 2^384 =
                l0 + l1 * 2^64 + l2 * 2^128 + l3 * 2^192 + (l4 + l5 * 2^64 + l6 * 2^128 + l7 * 2^192) * (4624529908474429119 + 4994812053365940164 * 2^64 + 2^128)) by (timeout 600 lia).
   assert (Bm : (0 <= m0 < 2^64 /\ 0 <= m1 < 2^64 /\ 0 <= m2 < 2^64 /\ 0 <= m3 < 2^64) /\ (0 <= m4 < 2^64 /\ 0 <= m5 < 2^64 /\ 0 <= m6 <= 3)) by (timeout 600 lia).
-  clear - SM Bm H0 H1 H2 H3 H4 H5 H6 H7.
+  clear - SM Bm HQ H0 H1 H2 H3 H4 H5 H6 H7.
   (* stage 2: 385 -> 258 bits *)
   repeat first [ muladd64_step | muladd_fast_step | sumadd_step | sumadd_fast_step | keep_step ].
   small_sum_step.
   assert (SP : p0 + p1 * 2^64 + p2 * 2^128 + p3 * 2^192 + p4 * 2^256 =
                m0 + m1 * 2^64 + m2 * 2^128 + m3 * 2^192 + (m4 + m5 * 2^64 + m6 * 2^128) * (4624529908474429119 + 4994812053365940164 * 2^64 + 2^128)) by (timeout 600 lia).
   assert (Bp : (0 <= p0 < 2^64 /\ 0 <= p1 < 2^64 /\ 0 <= p2 < 2^64 /\ 0 <= p3 < 2^64) /\ 0 <= p4 <= 12) by (timeout 600 lia).
-  clear - SM Bm SP Bp H0 H1 H2 H3 H4 H5 H6 H7.
+  clear - SM Bm SP Bp HQ H0 H1 H2 H3 H4 H5 H6 H7.
   (* stage 3: 258 -> 256 bits, and the final conditional subtraction of n *)
   repeat first [ split_step | keep_step | overflow_step | u128_step | trunc_step ].
-  bintro. cbv beta.
+  bintro. cbv beta. apply HQ. clear HQ. unfold red_spec.
   unfold hidden in *.
   match goal with H : ?co = (if N256 <=? ?v then 1 else 0) |- _ => destruct (Z.leb_spec N256 v) as [Hv|Hv] end.
   all: unfold val4, val8, N256 in *.
@@ -258,4 +264,14 @@ Proof.
   all: apply (Z.mod_unique_pos _ _ ((l4 + l5 * 2^64 + l6 * 2^128 + l7 * 2^192) + (m4 + m5 * 2^64 + m6 * 2^128) + p4 + scalar_reduce1_overflow)).
   all: destruct A3; subst c co scalar_reduce1_overflow.
   all: lia.
+Qed.
+
+Theorem scalar_reduce_512_correct l0 l1 l2 l3 l4 l5 l6 l7 :
+  0 <= l0 < 2^64 -> 0 <= l1 < 2^64 -> 0 <= l2 < 2^64 -> 0 <= l3 < 2^64 ->
+  0 <= l4 < 2^64 -> 0 <= l5 < 2^64 -> 0 <= l6 < 2^64 -> 0 <= l7 < 2^64 ->
+  scalar_reduce_512_k l0 l1 l2 l3 l4 l5 l6 l7 (fun r0 r1 r2 r3 =>
+    (0 <= r0 < 2^64 /\ 0 <= r1 < 2^64 /\ 0 <= r2 < 2^64 /\ 0 <= r3 < 2^64) /\
+    val4 r0 r1 r2 r3 = val8 l0 l1 l2 l3 l4 l5 l6 l7 mod N256).
+Proof.
+  intros. apply scalar_reduce_512_wp; try assumption. intros r0 r1 r2 r3 HP. exact HP.
 Qed.
